@@ -15,6 +15,15 @@
 //!   synchronisation primitives are `shuttle`'s with
 //!   `--cfg graaf_verif_shuttle` (a scheduler the simulator owns decides every
 //!   interleaving) and `std`'s otherwise (Miri decides them).
+//! * With `--cfg graaf_verif_shuttle`, [`Mutex`], [`RwLock`] and [`Arc`] are
+//!   thin wrappers that add one more scheduling point where real threads can
+//!   be preempted but the simulator's primitives cannot: right after a lock
+//!   was acquired (the holder may be descheduled *inside* its critical
+//!   section, so that a concurrent `try_lock` sees the lock held), and before
+//!   every reference-count operation of an `Arc` (`clone`, `drop`,
+//!   `strong_count`, `try_unwrap`, `into_inner`, `get_mut`, `make_mut`). The
+//!   points are off until the simulator switches them on for the calling OS
+//!   thread with [`set_extra_preemption`].
 
 #![allow(missing_docs, clippy::missing_errors_doc)]
 
@@ -35,13 +44,21 @@ pub use shuttle::{
         mpsc,
         Barrier,
         Condvar,
-        Mutex,
-        RwLock,
+        MutexGuard,
+        RwLockReadGuard,
+        RwLockWriteGuard,
     },
     thread::{
         scope,
         spawn,
     },
+};
+
+#[cfg(graaf_verif_shuttle)]
+pub use self::preemptible::{
+    Arc,
+    Mutex,
+    RwLock,
 };
 
 #[cfg(not(graaf_verif_shuttle))]
@@ -53,10 +70,14 @@ pub use std::{
             AtomicUsize,
         },
         mpsc,
+        Arc,
         Barrier,
         Condvar,
         Mutex,
+        MutexGuard,
         RwLock,
+        RwLockReadGuard,
+        RwLockWriteGuard,
     },
     thread::{
         scope,
@@ -136,5 +157,386 @@ pub fn available_parallelism() -> io::Result<NonZero<usize>> {
             io::ErrorKind::Unsupported,
             "graaf_verif: available_parallelism configured to fail",
         )),
+    }
+}
+
+thread_local! {
+    static EXTRA_PREEMPTION: Cell<bool> = const { Cell::new(false) };
+    static EXTRA_POINTS: Cell<u64> = const { Cell::new(0) };
+}
+
+/// Switch the additional scheduling points of [`Mutex`], [`RwLock`] and
+/// [`Arc`] on or off for the calling OS thread and return the previous
+/// setting. Without `--cfg graaf_verif_shuttle` there are no such points and
+/// the setting has no effect.
+pub fn set_extra_preemption(on: bool) -> bool {
+    EXTRA_PREEMPTION.with(|c| c.replace(on))
+}
+
+/// The number of additional scheduling points passed on the calling OS thread
+/// so far.
+#[must_use]
+pub fn extra_preemption_points() -> u64 {
+    EXTRA_POINTS.with(Cell::get)
+}
+
+/// Wrappers around the simulator's primitives with additional scheduling
+/// points.
+#[cfg(graaf_verif_shuttle)]
+mod preemptible {
+    use {
+        super::{
+            EXTRA_POINTS,
+            EXTRA_PREEMPTION,
+        },
+        shuttle::sync::{
+            LockResult,
+            MutexGuard,
+            RwLockReadGuard,
+            RwLockWriteGuard,
+            TryLockResult,
+        },
+        std::{
+            borrow::Borrow,
+            cell::Cell,
+            cmp::Ordering,
+            fmt,
+            hash::{
+                Hash,
+                Hasher,
+            },
+            mem::ManuallyDrop,
+            ops::Deref,
+            ptr,
+            time::Duration,
+        },
+    };
+
+    /// One more place where the scheduler may switch to another task.
+    fn point() {
+        if EXTRA_PREEMPTION.with(Cell::get) && !std::thread::panicking() {
+            EXTRA_POINTS.with(|c| c.set(c.get() + 1));
+            shuttle::thread::sleep(Duration::ZERO);
+        }
+    }
+
+    /// `shuttle::sync::Mutex` whose holder can be descheduled right after
+    /// acquiring the lock.
+    #[derive(Default)]
+    pub struct Mutex<T: ?Sized> {
+        inner: shuttle::sync::Mutex<T>,
+    }
+
+    impl<T> Mutex<T> {
+        pub const fn new(value: T) -> Self {
+            Self {
+                inner: shuttle::sync::Mutex::new(value),
+            }
+        }
+
+        pub fn into_inner(self) -> LockResult<T> {
+            self.inner.into_inner()
+        }
+    }
+
+    impl<T: ?Sized> Mutex<T> {
+        pub fn lock(&self) -> LockResult<MutexGuard<'_, T>> {
+            let guard = self.inner.lock();
+
+            point();
+
+            guard
+        }
+
+        pub fn try_lock(&self) -> TryLockResult<MutexGuard<'_, T>> {
+            let guard = self.inner.try_lock();
+
+            if guard.is_ok() {
+                point();
+            }
+
+            guard
+        }
+
+        pub fn get_mut(&mut self) -> LockResult<&mut T> {
+            self.inner.get_mut()
+        }
+
+        pub fn is_poisoned(&self) -> bool {
+            false
+        }
+
+        pub fn clear_poison(&self) {
+            self.inner.clear_poison();
+        }
+    }
+
+    impl<T> From<T> for Mutex<T> {
+        fn from(value: T) -> Self {
+            Self::new(value)
+        }
+    }
+
+    impl<T: ?Sized + fmt::Debug> fmt::Debug for Mutex<T> {
+        fn fmt(&self, f: &mut fmt::Formatter<'_>) -> fmt::Result {
+            self.inner.fmt(f)
+        }
+    }
+
+    /// `shuttle::sync::RwLock` whose holder can be descheduled right after
+    /// acquiring the lock.
+    #[derive(Default)]
+    pub struct RwLock<T: ?Sized> {
+        inner: shuttle::sync::RwLock<T>,
+    }
+
+    impl<T> RwLock<T> {
+        pub const fn new(value: T) -> Self {
+            Self {
+                inner: shuttle::sync::RwLock::new(value),
+            }
+        }
+
+        pub fn into_inner(self) -> LockResult<T> {
+            self.inner.into_inner()
+        }
+    }
+
+    impl<T: ?Sized> RwLock<T> {
+        pub fn read(&self) -> LockResult<RwLockReadGuard<'_, T>> {
+            let guard = self.inner.read();
+
+            point();
+
+            guard
+        }
+
+        pub fn write(&self) -> LockResult<RwLockWriteGuard<'_, T>> {
+            let guard = self.inner.write();
+
+            point();
+
+            guard
+        }
+
+        pub fn try_read(&self) -> TryLockResult<RwLockReadGuard<'_, T>> {
+            let guard = self.inner.try_read();
+
+            if guard.is_ok() {
+                point();
+            }
+
+            guard
+        }
+
+        pub fn try_write(&self) -> TryLockResult<RwLockWriteGuard<'_, T>> {
+            let guard = self.inner.try_write();
+
+            if guard.is_ok() {
+                point();
+            }
+
+            guard
+        }
+
+        pub fn get_mut(&mut self) -> LockResult<&mut T> {
+            self.inner.get_mut()
+        }
+
+        pub fn is_poisoned(&self) -> bool {
+            false
+        }
+
+        pub fn clear_poison(&self) {
+            self.inner.clear_poison();
+        }
+    }
+
+    impl<T> From<T> for RwLock<T> {
+        fn from(value: T) -> Self {
+            Self::new(value)
+        }
+    }
+
+    impl<T: ?Sized + fmt::Debug> fmt::Debug for RwLock<T> {
+        fn fmt(&self, f: &mut fmt::Formatter<'_>) -> fmt::Result {
+            self.inner.fmt(f)
+        }
+    }
+
+    /// `std::sync::Arc` with a scheduling point before every operation on
+    /// the reference count.
+    pub struct Arc<T: ?Sized> {
+        inner: std::sync::Arc<T>,
+    }
+
+    impl<T> Arc<T> {
+        pub fn new(value: T) -> Self {
+            Self {
+                inner: std::sync::Arc::new(value),
+            }
+        }
+
+        pub fn try_unwrap(this: Self) -> Result<T, Self> {
+            point();
+
+            std::sync::Arc::try_unwrap(Self::into_std(this))
+                .map_err(|inner| Self { inner })
+        }
+
+        pub fn into_inner(this: Self) -> Option<T> {
+            point();
+
+            std::sync::Arc::into_inner(Self::into_std(this))
+        }
+    }
+
+    impl<T: Clone> Arc<T> {
+        pub fn make_mut(this: &mut Self) -> &mut T {
+            point();
+
+            std::sync::Arc::make_mut(&mut this.inner)
+        }
+
+        pub fn unwrap_or_clone(this: Self) -> T {
+            point();
+
+            std::sync::Arc::unwrap_or_clone(Self::into_std(this))
+        }
+    }
+
+    impl<T: ?Sized> Arc<T> {
+        fn into_std(this: Self) -> std::sync::Arc<T> {
+            let this = ManuallyDrop::new(this);
+
+            // The wrapper is never dropped, so the count moves to the caller.
+            unsafe { ptr::read(&raw const this.inner) }
+        }
+
+        pub fn strong_count(this: &Self) -> usize {
+            point();
+
+            std::sync::Arc::strong_count(&this.inner)
+        }
+
+        pub fn weak_count(this: &Self) -> usize {
+            std::sync::Arc::weak_count(&this.inner)
+        }
+
+        pub fn get_mut(this: &mut Self) -> Option<&mut T> {
+            point();
+
+            std::sync::Arc::get_mut(&mut this.inner)
+        }
+
+        pub fn ptr_eq(this: &Self, other: &Self) -> bool {
+            std::sync::Arc::ptr_eq(&this.inner, &other.inner)
+        }
+
+        pub fn as_ptr(this: &Self) -> *const T {
+            std::sync::Arc::as_ptr(&this.inner)
+        }
+    }
+
+    impl<T: ?Sized> Clone for Arc<T> {
+        fn clone(&self) -> Self {
+            point();
+
+            Self {
+                inner: std::sync::Arc::clone(&self.inner),
+            }
+        }
+    }
+
+    impl<T: ?Sized> Drop for Arc<T> {
+        fn drop(&mut self) {
+            point();
+        }
+    }
+
+    impl<T: ?Sized> Deref for Arc<T> {
+        type Target = T;
+
+        fn deref(&self) -> &T {
+            &self.inner
+        }
+    }
+
+    impl<T: ?Sized> AsRef<T> for Arc<T> {
+        fn as_ref(&self) -> &T {
+            &self.inner
+        }
+    }
+
+    impl<T: ?Sized> Borrow<T> for Arc<T> {
+        fn borrow(&self) -> &T {
+            &self.inner
+        }
+    }
+
+    impl<T: Default> Default for Arc<T> {
+        fn default() -> Self {
+            Self::new(T::default())
+        }
+    }
+
+    impl<T> From<T> for Arc<T> {
+        fn from(value: T) -> Self {
+            Self::new(value)
+        }
+    }
+
+    impl<T> From<Vec<T>> for Arc<[T]> {
+        fn from(value: Vec<T>) -> Self {
+            Self {
+                inner: std::sync::Arc::from(value),
+            }
+        }
+    }
+
+    impl<T> FromIterator<T> for Arc<[T]> {
+        fn from_iter<I: IntoIterator<Item = T>>(iter: I) -> Self {
+            Self {
+                inner: iter.into_iter().collect(),
+            }
+        }
+    }
+
+    impl<T: ?Sized + fmt::Debug> fmt::Debug for Arc<T> {
+        fn fmt(&self, f: &mut fmt::Formatter<'_>) -> fmt::Result {
+            self.inner.fmt(f)
+        }
+    }
+
+    impl<T: ?Sized + fmt::Display> fmt::Display for Arc<T> {
+        fn fmt(&self, f: &mut fmt::Formatter<'_>) -> fmt::Result {
+            self.inner.fmt(f)
+        }
+    }
+
+    impl<T: ?Sized + PartialEq> PartialEq for Arc<T> {
+        fn eq(&self, other: &Self) -> bool {
+            self.inner == other.inner
+        }
+    }
+
+    impl<T: ?Sized + Eq> Eq for Arc<T> {}
+
+    impl<T: ?Sized + PartialOrd> PartialOrd for Arc<T> {
+        fn partial_cmp(&self, other: &Self) -> Option<Ordering> {
+            self.inner.partial_cmp(&other.inner)
+        }
+    }
+
+    impl<T: ?Sized + Ord> Ord for Arc<T> {
+        fn cmp(&self, other: &Self) -> Ordering {
+            self.inner.cmp(&other.inner)
+        }
+    }
+
+    impl<T: ?Sized + Hash> Hash for Arc<T> {
+        fn hash<H: Hasher>(&self, state: &mut H) {
+            self.inner.hash(state);
+        }
     }
 }
